@@ -357,6 +357,72 @@ pub struct ProgCfg {
     pub soft_pct: u64,
     /// percentage of acquisitions that are hand-polled (`alock`)
     pub alock_pct: u64,
+    /// percentage of the programs (hash map / lru) that own a `lock_all_entries` stream
+    pub stream_pct: u64,
+}
+
+/// A program that owns a `lock_all_entries` stream. It never waits (its acquisitions are try variants and hand-polled ones, the
+/// stream is polled by hand), so whatever it holds — guards, yielded guards, items that were handed a lock — is released by the
+/// end of the program and nobody waits for it forever.
+pub fn gen_stream_program(rng: &mut Rng, c: &ProgCfg) -> Vec<Stmt> {
+    let len = rng.range(3, c.max_stmts.max(3) + 2) as usize;
+    let mut p: Vec<Stmt> = Vec::new();
+    let mut nlocks = 0usize;
+    let mut held: Vec<usize> = Vec::new();
+    let try_vars = [Variant::T, Variant::To, Variant::Ta, Variant::Tao];
+    // some entries of its own first
+    let setup = rng.below(3);
+    for _ in 0..setup {
+        let k = rng.below(c.nkeys as u64) as u32;
+        p.push(Stmt::Lock { var: rng.pick(&try_vars), k, soft: None });
+        let slot = nlocks;
+        nlocks += 1;
+        if rng.pct(80) {
+            p.push(Stmt::Op(slot, GOp::Insert(rng.range(1, 9) as u32)));
+        }
+        if rng.pct(70) {
+            p.push(Stmt::Drop(slot));
+        } else {
+            held.push(slot);
+        }
+    }
+    p.push(Stmt::SOpen { owned: rng.pct(50) });
+    let mut open = true;
+    while p.len() < len {
+        let h = if held.is_empty() { 0 } else { 1 };
+        match rng.weighted(&[40, 14, 10 * h, 12 * h, 8, 10, 4, 2]) {
+            0 => p.push(Stmt::SNext),
+            1 => p.push(Stmt::SDropG),
+            2 => {
+                let slot = rng.pick(&held);
+                p.push(gen_op(rng, slot));
+            }
+            3 => {
+                let i = rng.below(held.len() as u64) as usize;
+                p.push(Stmt::Drop(held.remove(i)));
+            }
+            4 => p.push(if rng.pct(50) { Stmt::Count } else { Stmt::Keys }),
+            5 => {
+                if (nlocks as u64) < c.max_locks {
+                    let k = rng.below(c.nkeys as u64) as u32;
+                    p.push(Stmt::Lock { var: rng.pick(&try_vars), k, soft: None });
+                    held.push(nlocks);
+                    nlocks += 1;
+                }
+            }
+            6 => {
+                p.push(Stmt::SClose);
+                open = false;
+            }
+            _ => {
+                if !open {
+                    p.push(Stmt::SOpen { owned: rng.pct(50) });
+                    open = true;
+                }
+            }
+        }
+    }
+    p
 }
 
 fn gen_lock(rng: &mut Rng, c: &ProgCfg, k: u32) -> Stmt {
@@ -420,6 +486,9 @@ fn gen_use(rng: &mut Rng, c: &ProgCfg, slot: usize, alock: bool, p: &mut Vec<Stm
 /// * only hand-polled acquisitions (`alock`) on distinct keys: such a thread never waits.
 /// It never acquires a key it may still hold or have a pending acquisition for.
 pub fn gen_program(rng: &mut Rng, c: &ProgCfg) -> Vec<Stmt> {
+    if c.kind != Kind::Pool && c.stream_pct > 0 && rng.pct(c.stream_pct) {
+        return gen_stream_program(rng, c);
+    }
     let len = rng.range(1, c.max_stmts.max(1)) as usize;
     let mut p: Vec<Stmt> = Vec::new();
     let mut nlocks = 0usize;
